@@ -1,8 +1,11 @@
 //go:build verif
 
-package scte35
+package app
 
-import "github.com/Eyevinn/mp4ff/mp4"
+import (
+	"github.com/Dash-Industry-Forum/livesim2/pkg/scte35"
+	"github.com/Eyevinn/mp4ff/mp4"
+)
 
 // C13 — SCTE-35 events follow the per-minute schedule, each announced exactly once.
 //
@@ -28,16 +31,9 @@ func vH_C13_ts12800() { vC13(12800) }
 func vH_C13_ts30000() { vC13(30000) }
 func vH_C13_ts90000() { vC13(90000) }
 
-// ---- the splice_info_section: payload builder (external library + CRC) stubbed, its parameters recorded ----
+// (the stub of the splice_info_section builder lives in zz_verif_liveseg.go)
 
-var vLastParams SpliceInsertParams
-
-func vStubCreateSpliceInsertPayload(p SpliceInsertParams) []byte {
-	vLastParams = p
-	return nil
-}
-
-func vStubParamsOf(e *mp4.EmsgBox) (SpliceInsertParams, bool) { return vLastParams, true }
+func vStubParamsOf(e *mp4.EmsgBox) (scte35.SpliceInsertParams, bool) { return vLastParams, true }
 
 var vC13Offsets = [4][]uint64{nil, {10}, {10, 40}, {10, 36, 46}}
 
@@ -48,7 +44,7 @@ func vC13(ts uint64) {
 	dur := vUint64("dur", 1, 10*ts)
 	segEnd := segStart + dur
 
-	emsg, err := CreateEmsgAhead(segStart, segEnd, ts, perMinute)
+	emsg, err := scte35.CreateEmsgAhead(segStart, segEnd, ts, perMinute)
 	vAssert("C13.noerr", err == nil)
 
 	// Oracle: the announce instants that can fall in (segStart, segEnd] belong to the minute of segStart
@@ -82,7 +78,7 @@ func vC13(ts uint64) {
 				adDur = 20 * ts
 			}
 			vAssert("C13.event-duration", uint64(emsg.EventDuration) == adDur)
-			vAssert("C13.scheme", emsg.SchemeIDURI == SchemeIDURI)
+			vAssert("C13.scheme", emsg.SchemeIDURI == scte35.SchemeIDURI)
 			// the embedded splice_info_section is consistent with the emsg: PTS = presentation time in 90 kHz
 			// modulo 2^33, break duration = event duration in 90 kHz, same event id, out-of-network + auto return
 			sp, ok := vParamsOf(emsg)
@@ -106,9 +102,9 @@ func vH_C13_badN() {
 	vAssume(n < 1 || n > 3)
 	segStart := vUint64("segStart", 0, 1<<48)
 	dur := vUint64("dur", 1, 10*90000)
-	emsg, err := CreateEmsgAhead(segStart, segStart+dur, 90000, n)
+	emsg, err := scte35.CreateEmsgAhead(segStart, segStart+dur, 90000, n)
 	vAssert("C13.badN-rejected", err != nil)
 	vAssert("C13.badN-no-emsg", emsg == nil)
-	vAssert("C13.badN-validator", IsValidSCTE35Interval(n) != nil)
+	vAssert("C13.badN-validator", scte35.IsValidSCTE35Interval(n) != nil)
 	vReach("C13.badN.end")
 }
